@@ -141,7 +141,44 @@ def fanout_site(n):
     return S(pages), ['http://a.test/']
 
 
+def bigdocs_site():
+    """Documents larger than the scrapers' stream buffers (CSS/JS are scanned through a
+    16384-byte window with a 4096-byte overlap; bodies are read 4096 bytes at a time): links
+    at the start, straddling the window boundaries, and at the very end."""
+    def place(parts):
+        out = ''
+        for pos, text in parts:
+            if pos is not None:
+                pos -= text.index('url(')      # pos is where the url(...) token begins
+                pad = pos - len(out)
+                assert pad >= 4, (pos, len(out))
+                out += '/*' + 'x' * (pad - 4) + '*/'
+            out += text
+        return out
+    css_links = ['/c0.png', '/c1.png', '/c2.png', '/c3.png', '/c4.png', '/c5.png']
+    css = place([(None, 'a{background:url(/c0.png)}'),
+                 (16384 - 6, 'b{background:url(/c1.png)}'),          # straddles 16384
+                 (16384 + 4096 - 6, 'c{background:url(/c2.png)}'),   # straddles the overlap end
+                 (32768 - 1, 'd{background:url(/c3.png)}'),
+                 (49152 - 11, 'e{background:url(/c4.png)}'),
+                 (70000, 'f{background:url(/c5.png)}')])
+    html_links = ['/h0', '/h1', '/h2', '/h3']
+    html = '<html><body><a href="/h0">0</a><!--' + 'y' * 16360 + '--><a href="/h1">1</a><p>' \
+        + 'z' * 70000 + '</p><a href="/h2">2</a><!--' + 'w' * 4090 + '--><a href="/h3">3</a>' \
+        '</body></html>'
+    pages = {'/': {'css': ['/big.css'], 'links': ['/big.html']},
+             '/big.css': {'body': css, 'ctype': 'text/css', 'reqs': css_links},
+             '/big.html': {'body': html, 'ctype': 'text/html', 'links': html_links}}
+    for l in css_links:
+        pages[l] = {'body': 'PNG', 'ctype': 'image/png'}
+    for l in html_links:
+        pages[l] = {'body': 'leaf', 'ctype': 'text/plain'}
+    return S(pages), ['http://a.test/']
+
+
 def get_site(params):
+    if params['site'] == 'bigdocs':
+        return bigdocs_site()
     if params['site'].startswith('fanout'):
         return fanout_site(int(params['site'][6:]))
     if params['site'].startswith('g'):
@@ -304,6 +341,7 @@ def jobs(tier, seed):
         for mask in (0b111111111, 0b010001100, 0b110101011, 0b000000110, 0b011100010):
             js.append(dict(params=dict(site='g%d' % mask, opts='r', conc=2), budget=1,
                            prefix=[]))
+    js.append(dict(params=dict(site='bigdocs', opts='r-p', conc=1), budget=0, prefix=[]))
     # a page whose links cross wpull's 1000-URL storage batch (one run each, no reordering)
     js.append(dict(params=dict(site='fanout1005', opts='r', conc=1, horizon=400000, light=True), budget=0,
                    prefix=[]))
